@@ -396,9 +396,36 @@ def run (cfg : Cfg) (h : Dispatch D R) (s : Server D) : List Event → Server D 
 
 end Code
 
+/-! ### Where the password comes from (src/config: cli.rs, parser.rs, mod.rs `apply_cli_args`, main.rs) -/
+
+/-- `apply_cli_args`: the command-line password replaces the file's only when one was given (`ifGiven`, the code as
+    it is), or the field is assigned the command line's `Option` unconditionally (`always`: no command-line
+    password wipes the one from the file). -/
+inductive CliRule | ifGiven | always
+  deriving DecidableEq, Repr
+
+namespace Code
+/-- `cli`: the values of `--requirepass` / `--password` in command-line order (the last one stays in `CliArgs`);
+    `file`: the values of the configuration file's `requirepass` lines in order (the last one stays).
+    main.rs: file first, then the command line on top. -/
+def effectivePassword (rule : CliRule) (cli file : List Bytes) : Option Bytes :=
+  match rule with
+  | .ifGiven => match cli.getLast? with
+    | some p => some p
+    | none => file.getLast?
+  | .always => cli.getLast?
+end Code
+
 /-! ### What the property prescribes -/
 
 namespace Spec
+
+/-- A server that was given a password by ANY supported means has one: the command line's last, else the
+    file's last. -/
+def configuredPassword (cli file : List Bytes) : Option Bytes :=
+  match cli.getLast? with
+  | some p => some p
+  | none => file.getLast?
 
 /-- The three commands an unauthenticated connection may use. -/
 def harmless : List Bytes := [AUTH, PING, QUIT]
